@@ -19,7 +19,7 @@ Base == 2          \* model commitment threshold; the harness maps nc, nr to the
 
 Off == [on |-> FALSE, ts |-> 0, nc |-> 0, nr |-> 0]
 \* below the threshold (all responded) / threshold reached, one response missing / complete
-Progress == {<<1, 1>>, <<2, 1>>, <<2, 2>>}
+Progress == IF Family = "two" THEN {<<1, 1>>, <<2, 1>>, <<2, 2>>} ELSE {<<1, 1>>, <<2, 2>>}
 OnTimed == { [on |-> TRUE, ts |-> ts, nc |-> pr[1], nr |-> pr[2]] : ts \in {0, 1}, pr \in Progress }
 OnPlain == { [on |-> TRUE, ts |-> 0, nc |-> 1, nr |-> 1] }
 
@@ -32,8 +32,9 @@ Owners(m) == { w \in [TxV -> AggV \cup {NoneV}] :
 
 \* transaction classes: none = no body anywhere; c = cache body (consumed from the queue);
 \* cq = cache body and scheduled; p = body in the persistent store, unfinalized; pf = finalized
-Cls == [t1 : {"c", "pf"}, t2 : {"none", "c", "cq", "p", "pf"}, t3 : {"c", "none"}]
-         \cup (IF Family = "three" THEN [t1 : {"p", "cq"}, t2 : {"c", "p", "pf"}, t3 : {"pf", "p"}] ELSE {})
+Cls == IF Family = "two"
+       THEN [t1 : {"c", "pf"}, t2 : {"none", "c", "cq", "p", "pf"}, t3 : {"c", "none"}]
+       ELSE [t1 : {"c", "p", "cq"}, t2 : {"c", "pf"}, t3 : {"c", "pf", "p"}]
 
 StateOf(m, w, k) ==
     [ agg    |-> m,
